@@ -78,4 +78,18 @@ var plans = map[string]Plan{
 			"the most negative linear-quantiser pattern is rejected by import explicitly and is not treated as a value of the type",
 		},
 	},
+	"C13": {
+		Pkg: "c13",
+		Runs: []Run{
+			{Test: "^TestProps$/^agents$", Checks: checks(600, 25000), Shards: shards(4, 12)},
+			{Test: "^TestProps$/^agents_deep$", Checks: checks(300, 12000), Shards: shards(2, 8)},
+			{Test: "^TestExhaustive$", NoRapid: true, Shards: shards(1, 1), Timeout: tmo(10*time.Minute, 60*time.Minute)},
+		},
+		Assumptions: []string{
+			"the module is executed by /verif's Verilog interpreter (2-state, power-up zero, one clock owned by the harness); reset is held for two cycles",
+			"agents follow the 4-phase write/ack and read/ack handshake and never change data while requesting",
+			"bounded wait is checked as: acknowledged within 2*agents+2 cycles in which the agent's path was enabled (write path: not full and no pending read on a non-empty store; read path: not empty)",
+			"exhaustive slices are those listed in coverage.extra; larger configurations are sampled, not closed",
+		},
+	},
 }
